@@ -204,6 +204,9 @@ def build_record(v, np):
         offs = [int(x) for x in f['buffer_inner_offsets']]
         rings = [vals[a:b] for a, b in zip(offs, offs[1:])]
         return g.Polygon(rings) if cls == 'Polygon' else g.MultiPolygon([rings])
+    if cls == 'Point' and 'x' in f:
+        import spatialpandas.geometry as g
+        return g.Point([float(f['x']), float(f['y'])])
     if cls == 'slice':
         return slice(f.get('start'), f.get('stop'), f.get('step'))
     if cls in ('HilbertRtree', 'GeometryArrayTB'):
